@@ -143,9 +143,9 @@ def main():
         "setup_cmd": "./setup.sh",
         "hooks": {
             "guard": "incan_verif",
-            "enable": "harness/.cargo/config.toml sets rustflags = [\"--cfg\", \"incan_verif\"]; the only hook is the LSP event log (src/lsp/mod.rs verif_hooks + 4 log calls in src/lsp/backend.rs), used by C18",
+            "enable": "harness/.cargo/config.toml sets rustflags = [\"--cfg\", \"incan_verif\"]; two hooks: the LSP event log (src/lsp/mod.rs verif_hooks + 4 log calls in src/lsp/backend.rs), used by C18, and a re-export of the formatter's output writer (src/format/mod.rs `pub use writer::FormatWriter`), used by C09",
             "baseline_off_cmd": "cd /repo && cargo test --workspace --no-fail-fast --offline",
-            "source_commits": ["3c16098"],
+            "source_commits": ["3c16098", "b91a239"],
             "add_only": True,
         },
         "engines": [
